@@ -90,18 +90,32 @@ class FnArr:
 DEFS = []  # definitional axioms of materialised arrays (added to every VC that mentions them)
 
 
+_MAT_CACHE = {}
+
+
 def materialise(a, name="arr"):
+    """turn an index->term closure into an array constant with a definitional axiom; structurally identical closures
+    (same term at the canonical index variables) share one constant, so code and specification agree syntactically"""
     if not isinstance(a, FnArr):
         return a
     k = z3.Int("k!def")
     inner = a[k]
     if isinstance(inner, FnArr):
         j = z3.Int("j!def")
+        body = inner[j]
+        key = ("2", body.get_id())
+        if key in _MAT_CACHE and _MAT_CACHE[key][1] is not None:
+            return _MAT_CACHE[key][0]
         c = fresh(name, arr(I, I, R))
-        DEFS.append((c.decl().name(), z3.ForAll([k, j], c[k][j] == inner[j], patterns=[c[k][j]])))
+        DEFS.append((c.decl().name(), z3.ForAll([k, j], c[k][j] == body, patterns=[c[k][j]])))
+        _MAT_CACHE[key] = (c, body)      # keep `body` alive so that its AST id is not reused
         return c
+    key = ("1", inner.get_id())
+    if key in _MAT_CACHE:
+        return _MAT_CACHE[key][0]
     c = fresh(name, arr(I, inner.sort()))
     DEFS.append((c.decl().name(), z3.ForAll([k], c[k] == inner, patterns=[c[k]])))
+    _MAT_CACHE[key] = (c, inner)
     return c
 
 
@@ -315,6 +329,9 @@ class Repo:
             for c in tree.body:
                 if isinstance(c, ast.ClassDef):
                     self.classes[c.name] = (path, c)
+            funcs = [c for c in tree.body if isinstance(c, ast.FunctionDef)]
+            if funcs:       # module-level functions: methods of the pseudo class "@<path>" (always static)
+                self.classes["@" + path] = (path, ast.ClassDef(name="@" + path, bases=[], keywords=[], body=funcs, decorator_list=[]))
         return self.files[path]
 
     def mro(self, cls):
@@ -827,6 +844,9 @@ class Engine:
     def ev_Dict(self, n, st):
         return VDict({self.key_of(self.ev(k, st)): self.ev(v, st) for k, v in zip(n.keys, n.values)})
 
+    def ev_Set(self, n, st):
+        return VPySet(self.key_of(self.ev(e, st)) for e in n.elts)
+
     def ev_Tuple(self, n, st):
         return VTuple([self.ev(e, st) for e in n.elts])
 
@@ -891,6 +911,8 @@ class Engine:
             return VBound(base, n.attr)
         if isinstance(base, VTuple) and n.attr in ("index", "append", "copy", "count"):
             return VBound(base, n.attr)
+        if n.attr == "dot" and getattr(self, "dot_model", None) is not None and not isinstance(base, (VRef, VLib)):
+            return VBound(base, "dot")
         if isinstance(base, VSeq) and n.attr == "append":
             return VBound(base, "append")
         if isinstance(base, (VSeq, VMat)) and n.attr == "copy":
@@ -1093,6 +1115,9 @@ class Engine:
                 conj.append({ast.Lt: x < y, ast.LtE: x <= y, ast.Gt: x > y, ast.GtE: x >= y, ast.Eq: x == y, ast.NotEq: x != y}[type(op)])
             elif isinstance(left, VStr) and isinstance(right, VStr):
                 conj.append(z3.BoolVal({ast.Eq: left.s == right.s, ast.NotEq: left.s != right.s}[type(op)]))
+            elif isinstance(left, VTuple) and isinstance(right, VTuple) and isinstance(op, (ast.Eq, ast.NotEq)) and all(isinstance(q_, VNum) for q_ in left.items + right.items):
+                eq_ = z3.And([z3.BoolVal(len(left.items) == len(right.items))] + [num_pair(a_, b_)[0] == num_pair(a_, b_)[1] for a_, b_ in zip(left.items, right.items)])
+                conj.append(eq_ if isinstance(op, ast.Eq) else z3.Not(eq_))
             elif (isinstance(left, VSeq) or isinstance(right, VSeq)) and len(n.ops) == 1 and isinstance(left, (VSeq, VNum)) and isinstance(right, (VSeq, VNum)):
                 cmpf = {ast.Lt: lambda x, y: x < y, ast.LtE: lambda x, y: x <= y, ast.Gt: lambda x, y: x > y, ast.GtE: lambda x, y: x >= y, ast.Eq: lambda x, y: x == y, ast.NotEq: lambda x, y: x != y}[type(op)]
                 ln = left.len if isinstance(left, VSeq) else right.len
@@ -1139,6 +1164,10 @@ class Engine:
                 self.oblige("pre@slice:" + ast.unparse(n), st, z3.And(0 <= lo, lo <= hi, hi <= base.len))
                 return VSeq(FnArr(lambda k_: base.arr[k_ + lo]), hi - lo)
             idx = self.ev(n.slice, st)
+            if isinstance(idx, VSeq) and isinstance(base, VSeq):      # fancy indexing by an array of indices
+                q_ = z3.Int("q!fancy")
+                self.oblige("pre@fancy-index:" + ast.unparse(n)[:60], st, z3.ForAll([q_], z3.Implies(z3.And(0 <= q_, q_ < idx.len), z3.And(0 <= z3.ToInt(idx.arr[q_]), z3.ToInt(idx.arr[q_]) < base.len))))
+                return VSeq(FnArr(lambda k_: base.arr[z3.ToInt(idx.arr[k_])]), idx.len)
             i = self.norm_index(idx.e, base.len)
             self.oblige("pre@index:" + ast.unparse(n), st, z3.And(i >= 0, i < base.len))
             return VNum(base.arr[i]) if isinstance(base, VSeq) else VRef(base.arr[i], base.cls)
@@ -1201,6 +1230,8 @@ class Engine:
                 st.assume(z3.Implies(m_.has(nm.e), z3.And(0 <= q, q < m_.len, m_.names[q] == nm.e)))
                 return VRef(z3.If(m_.has(nm.e), m_.arr[q], NULL), m_.cls)
             raise Unsupported("dict method " + f.name)
+        if isinstance(f, VBound) and isinstance(f.recv, VStr) and f.name == "join" and isinstance(args[0], VTuple) and all(isinstance(q_, VStr) for q_ in args[0].items):
+            return VStr(f.recv.s.join(q_.s for q_ in args[0].items))
         if isinstance(f, VBound) and isinstance(f.recv, VStr) and f.name in ("lower", "upper", "strip"):
             return VStr(getattr(f.recv.s, f.name)())
         if isinstance(f, VBound) and isinstance(f.recv, VStr):
@@ -1255,6 +1286,8 @@ class Engine:
             if base_cls in mro_:
                 prev = mro_[mro_.index(base_cls) - 1] if mro_.index(base_cls) > 0 else None
                 return self.call_method(st, args[0], f.name, args[1:], kw, node=n, after=prev)
+        if isinstance(f, VBound) and f.name == "dot" and getattr(self, "dot_model", None) is not None and not isinstance(f.recv, (VRef, VLib)):
+            return self.dot_model(f.recv, args[0])
         if isinstance(f, VBound) and isinstance(f.recv, VBoolSeq):
             return self.bool_reduce(f.recv, f.name)
         if isinstance(f, VBound):
@@ -1743,6 +1776,8 @@ class Engine:
         """for x in <iterable>: body   ==   i=0; while i < len: x = item(i); body; i+=1   (ghost index '#i<k>').
         Concrete python lists/tuples (VTuple) are unrolled."""
         it = self.ev(n.iter, st)
+        if isinstance(it, VPySet):
+            it = VTuple([VStr(x) if isinstance(x, str) else VNum(z3.IntVal(x)) for x in sorted(it.items, key=str)])
         if isinstance(it, VTuple):
             outs = [(st, "next", None)]
             for item in list(it.items):
@@ -1802,7 +1837,7 @@ class Engine:
         self.cur_loops = {"ids": {id(x): i for i, x in enumerate(loops)}, "inv": c.loops}
         fid = f"{cls}.{name}" + (f"[{kind}]" if kind else "") + (tag or "")
         st = State()
-        static = any(ast.unparse(d) == "staticmethod" for d in fdef.decorator_list)
+        static = any(ast.unparse(d) == "staticmethod" for d in fdef.decorator_list) or cls.startswith("@")
         params = [a.arg for a in fdef.args.args]
         me = None
         if not static:
